@@ -400,9 +400,19 @@ class C15(PropBase):
             c = {"op": "run", "kind": "files:walk-dangling-symlink", "cfg": {}, "walk": True, "want": ["txns", "identity"],
                  "files": [{"name": names[0], "text": good[0]}, {"name": names[1], "symlink": "no/such/target.txn", "text": ""}]}
             out.append(c)
-        out.append({"op": "run", "kind": "files:walk-good", "cfg": {}, "walk": True, "want": ["txns", "identity"],
+        out.append({"op": "run", "kind": "files:walk-good", "cfg": {}, "walk": True, "want": ["txns", "identity"], "expect_n": 2,
                     "files": [{"name": "a.txn", "text": good[0]}, {"name": "sub/b.txn", "text": good[1]},
                               {"name": "sub/ignored.txt", "text": "not a journal"}]})
+        # symbolic links with a valid target are followed: a linked journal file and a linked directory (closed years kept
+        # elsewhere and linked back) contribute their transactions like ordinary entries
+        out.append({"op": "run", "kind": "files:walk-symlinked-file", "cfg": {}, "walk": True, "want": ["txns", "identity"], "expect_n": 2,
+                    "files": [{"name": "a.txn", "text": good[0]}, {"name": "../elsewhere/b.txn", "text": good[1]},
+                              {"name": "l.txn", "symlink": "../elsewhere/b.txn", "symlink_ok": True, "text": ""}]})
+        for link in ("2023", "years/2023"):
+            out.append({"op": "run", "kind": "files:walk-symlinked-dir", "cfg": {}, "walk": True, "want": ["txns", "identity"], "expect_n": 3,
+                        "files": [{"name": "2024/a.txn", "text": good[0]}, {"name": "../archive/2023/b.txn", "text": good[1]},
+                                  {"name": "../archive/2023/q4/c.txn", "text": good[2]}, {"name": "years/.keep", "text": ""},
+                                  {"name": link, "symlink": "../archive/2023", "symlink_ok": True, "text": ""}]})
         out.append(self.mk_files("files:strict", [good[2], body], cfg={"strict": True, "accounts": ["a", "b"], "commodities": ["EUR"]}))
         out.append(self.mk_files("files:strict", [good[2], good[1]], cfg={"strict": True, "accounts": ["a", "b"], "commodities": ["EUR"]}))
         return out
@@ -527,6 +537,13 @@ class C15(PropBase):
             return {"sig": "crash:" + r.lower() + self.crash_class(case), "what": "loading ended with %s instead of a result or an error" % r}
         if r not in ("OK", "ERR"):
             return {"sig": "status:" + str(r), "what": "unexpected load status %s: %s" % (r, str(impl.get("msg"))[:200])}
+        if case.get("expect_n") is not None:
+            if r != "OK":
+                return {"sig": "walk-rejected", "what": "directory walk over valid entries failed: %s" % str(impl.get("msg"))[:200]}
+            if impl.get("n") != case["expect_n"]:
+                return {"sig": "walk-incomplete", "what": "the directory holds %d transactions in journal files (linked entries "
+                        "included), %s were loaded" % (case["expect_n"], impl.get("n"))}
+            return None
         if "files" in case and any(f.get("symlink") is not None for f in case["files"]):
             if r == "OK":
                 return {"sig": "walk-error-swallowed", "what": "the directory walk met an unreadable entry (dangling symbolic link) and the load succeeded from the other files"}
